@@ -13,9 +13,11 @@ META = {
   "on the complete-tree skeleton of height H -- a superset of the reachable ones; the post-state is checked against the same invariant, so the step is inductive",
   "the runner case-splits on where the search for the operation key ends (skeleton position, hit/miss) and, for removals of a stored key, on the "
   "neighbourhood deciding which node is unlinked (leaf / one child / two children with predecessor depth); each case is one solver query, the split is exhaustive by construction",
-  "p_tree_new is exercised with a three-argument comparator cast to PCompareFunc (the library casts it back and passes data = NULL; asserted)"],
+  "p_tree_new is exercised with a three-argument comparator cast to PCompareFunc (the library casts it back and passes data = NULL; asserted)",
+  "NULL as user key / value: in the *_null* queries one key token and one value token are the NULL pointer (the comparator orders by rank, so NULL has a rank like any other key)",
+  "*_allocfail queries: the ledger fails the single node request of an insert of a new key; expected: tree pointer-for-pointer and field-for-field unchanged, count unchanged, no notifier"],
  "outside": ["trees higher than H before the operation (quick: H=3 for every case + the H=4 leaf removals at depth 2 for RB/AVL; thorough: H=4 for every case)", "comparators that are not total orders",
-             "histories longer than the stated number of calls", "allocation failure inside insert (C18)"],
+             "histories longer than the stated number of calls", "allocation failure of the PTree object itself (C18)"],
  "units_included_by_harness": tc.INCLUDED,
 }
 MANIFEST = {
@@ -43,6 +45,9 @@ def step_queries(h, types, light=False):
             for rc in tc.remcases(h, p):
                 qs.append(step(PROP, tt, h, 1, p, 1, newmode=(p + rc) % 2, remcase=rc, extra=X))
         for p in tc.insert_new_cases(h):
+            # the node allocation fails: p_tree_insert must leave the tree exactly as it was (pointer for pointer, field for field)
+            qs.append(step(PROP, tt, h, 0, p, 0, newmode=(p + 1) % 2, extra=X + ["ALLOC_FAIL"]))
+        for p in tc.insert_new_cases(h):
             if light and p % 3:
                 continue
             qs.append(step(PROP, tt, h, 1, p, 0, newmode=(p + 1) % 2, extra=X))          # remove of an absent key
@@ -62,6 +67,18 @@ def whole_tree_queries(h, types):
 def queries(tier):
     qs = step_queries(3, (0, 1, 2)) + whole_tree_queries(3, (0, 1, 2))
     qs += tc.quick_h4_removals(PROP, X, newmode=0)
+    for tt in (0, 1, 2):
+        # NULL as a key and as a value: insert of (NULL, NULL), replace / removal of the NULL-keyed pair by the NULL key itself,
+        # lookup / foreach / clear over a tree holding a NULL key and a NULL value
+        for p in (1, 6, 12):
+            qs.append(step(PROP, tt, 3, 0, p, 0, newmode=1, extra=X + ["NULLTOK=2"]))
+        qs.append(step(PROP, tt, 3, 0, 3, 1, newmode=0, extra=X + ["NULLTOK=1"]))   # replace of the (NULL, NULL) pair
+        for p in (2, 7):
+            qs.append(step(PROP, tt, 3, 0, p, 1, newmode=p % 2, extra=X + ["NULLTOK=2"]))   # replace BY the pair (NULL, NULL)
+        for p, rc in ((1, 3), (2, 1), (5, 0)):
+            qs.append(step(PROP, tt, 3, 1, p, 1, newmode=p % 2, remcase=rc, extra=X + ["NULLTOK=1"]))
+        for op in (2, 3, 4):
+            qs.append(step(PROP, tt, 3, op, newmode=1, extra=["SYM_MAG", "NULLTOK=3"]))
     qs += [hist(PROP, 0, 3, 0), hist(PROP, 1, 3, 1)]
     qs += tc.avl_hist(PROP, 1, tier)
     if tier == "thorough":
